@@ -66,6 +66,8 @@ def eval_case(case: dict) -> dict:
             verdict, reason = refcfg.REJECT, 'multi-client port is not multi-threaded'
             reason_kind = reason
     cnt[f'ref_{verdict}'] = 1
+    if case.get('wide'):
+        cnt[f'wide_components_ref_{verdict}'] = 1
     exposed = case['provides'] + case['requires']
 
     def viol(mech, **detail):
@@ -291,6 +293,31 @@ def gen_cases(tier: str, rng: random.Random):
                       'psel': {'sts': rsel(prov, ['zz']), 'mts': rsel(prov, ['zz'])},
                       'rsel': {'sts': rsel(req, ['zz'] + inj), 'mts': rsel(req, ['zz'] + inj)},
                       'level': 'build'})
+    # wide components: 10-14 ports on a side, (nearly) all of them named explicitly - and the one
+    # name the component does not have sorts first, in the middle, after the tenth, last
+    n_wide = 60 if tier == 'quick' else 3000
+    for i in range(n_wide):
+        k = 10 + i % 5
+        prov = [f'p{j:02d}' for j in range(k if i % 2 == 0 else 1 + i % 3)]
+        req = [f'r{j:02d}' for j in range(k if i % 2 else 1 + i % 3)]
+        side, names = ('p', prov) if i % 2 == 0 else ('r', req)
+        pos = (i // 2) % (len(names) + 1)
+        unknown = ['a_first', 'zz_last', None, f'{side}{min(pos, len(names) - 1):02d}x',
+                   f'{side}{len(names) - 1:02d}_'][(i // 10) % 5]
+        named = list(names) + ([unknown] if unknown else [])
+        rng.shuffle(named)
+        if len(named) > 3 and i % 3 == 0:
+            # split over both semantics (requires side only: provides must be uniform)
+            cut = rng.randint(1, len(named) - 1)
+            wide = {'sts': sorted(named[:cut]), 'mts': sorted(named[cut:])} if side == 'r' else \
+                {'sts': 'NONE', 'mts': sorted(named)}
+        else:
+            wide = {'sts': sorted(named), 'mts': 'NONE'} if side == 'r' else \
+                {'sts': 'NONE', 'mts': sorted(named)}
+        cases.append({'provides': prov, 'requires': req, 'injected': [],
+                      'psel': wide if side == 'p' else {'sts': 'NONE', 'mts': 'ALL'},
+                      'rsel': wide if side == 'r' else {'sts': 'ALL', 'mts': 'NONE'},
+                      'level': 'build' if i % 4 < 2 else 'match', 'wide': True})
     return cases, exhaustive
 
 
@@ -324,7 +351,8 @@ def main(tier: str) -> int:
                 'side against every component shape, at match and at build level, with the other '
                 f'side fixed to a valid selection; names per side <= {2 if tier == "quick" else 3}'}
     run.require('match_calls', 'builds', 'builds_on_reused_builder_and_model',
-                'ports_cfg_object_matched_other_ports_first', 'configured_via_constructor_positional', 'headers_inspected', 'ref_accept', 'ref_reject',
+                'ports_cfg_object_matched_other_ports_first', 'configured_via_constructor_positional',
+                'wide_components_ref_accept', 'wide_components_ref_reject', 'headers_inspected', 'ref_accept', 'ref_reject',
                 'configured_via_preset_all_mts', 'configured_via_preset_all_sts',
                 'configured_via_preset_all_sts_all_mts', 'configured_via_preset_all_mts_all_sts',
                 'configured_via_preset_all_mts_mixed_ts', 'configured_via_preset_all_sts_mixed_ts',
